@@ -399,7 +399,9 @@ class FileDownloader(Resource, object):
 
                 if first == '':
                     # suffix-byte-range-spec
-                    first = filesize - int(last)
+                    if int(last) < 0:
+                        raise ValueError
+                    first = max(0, filesize - int(last))
                     last = filesize - 1
                 else:
                     # byte-range-spec
@@ -412,9 +414,8 @@ class FileDownloader(Resource, object):
                         last = filesize - 1
                     else:
                         last = int(last)
-
-                if last < first:
-                    raise ValueError
+                        if last < first:
+                            raise ValueError
 
                 return (first, last)
 
